@@ -1946,6 +1946,13 @@ func (s *session) sendHostile(m *hmsg) bool {
 	return true
 }
 
+// leak: the follower cannot be stopped safely; its files are removed when the process ends.
+func (s *session) leak() {
+	if !s.onA && s.node != nil && s.node.Dir != "" {
+		leakDir(s.node.Dir)
+	}
+}
+
 func errSuffix(ep *endpoint, o outcome) string {
 	if o != dropped {
 		return ""
@@ -1968,6 +1975,7 @@ func (s *session) teardown() {
 	for _, ep := range s.eps {
 		if !ep.close() {
 			inconclusive(s.c, "protocol function of "+ep.name+" did not return after its connection was closed", dumpAll())
+			s.leak()
 			return // the follower's database stays open: the handler may still use it
 		}
 	}
@@ -1978,6 +1986,7 @@ func (s *session) teardown() {
 	case <-time.After(3 * liveDeadline):
 		inconclusive(s.c, "manager Stop did not return", dumpAll())
 		// the follower's database stays open: goroutines of this manager may still use it
+		s.leak()
 		return
 	}
 	t1 := time.Now()
@@ -1990,6 +1999,7 @@ func (s *session) teardown() {
 	}
 	if !ok {
 		inconclusive(s.c, "manager goroutines still running after Stop", g)
+		s.leak()
 		return
 	}
 	if !s.onA {
